@@ -496,17 +496,17 @@ func writeEvidence(cfg PropCfg, tier string, seed int64, m *pk.Stats, wall float
 	sort.Strings(exhSubs)
 	exh = len(exhSubs) > 0 // the named table sub-checks enumerated their finite space completely
 	cov := map[string]any{
-		"evaluations":         m.Evaluations,
-		"distinct_nontrivial": len(m.NonTrivial),
-		"rule":                cfg.Rule,
-		"samples":             samples,
-		"classes":             m.Classes,
-		"discards":            m.Discards,
-		"gates_redirected":    m.Gates,
-		"known_finding_hits":  m.KnownHits,
-		"inconclusive":        m.Inconclusive,
-		"counters":            m.Extra,
-		"exhaustive":          exh,
+		"evaluations":          m.Evaluations,
+		"distinct_nontrivial":  len(m.NonTrivial),
+		"rule":                 cfg.Rule,
+		"samples":              samples,
+		"classes":              m.Classes,
+		"discards":             m.Discards,
+		"gates_redirected":     m.Gates,
+		"known_finding_hits":   m.KnownHits,
+		"inconclusive":         m.Inconclusive,
+		"counters":             m.Extra,
+		"exhaustive":           exh,
 		"exhaustive_subchecks": exhSubs,
 	}
 	if cfg.Level == "translation_validation" {
